@@ -184,7 +184,10 @@ def build(p):
     start = None
     if api in ('dmrg_cross_start', 'fi_multi_start'):
         r = p['start_rank']
-        start = TT(gen.rand_cores(N, [1] + [r] * (d - 1) + [1], 'f64', g))
+        Rs = [1] + [r] * (d - 1) + [1]
+        if p['vseed'] % 2 == 0:
+            Rs = [1] + [1 + (p['vseed'] >> (3 * k)) % 4 for k in range(d - 1)] + [1]     # non-uniform warm start
+        start = TT(gen.rand_cores(N, Rs, 'f64', g))
     if api in ('dmrg_cross', 'dmrg_cross_start'):
         if p['target'] == 'tt':
             exact = gen.dense_from_cores(gen.rand_cores(N, p['R'], 'f64', g))
